@@ -51,6 +51,8 @@ def op_terms(op):
         return [("OSetFile %d %s" % (op["path"], "(Some (CLit %d))" % lit if lit else "None"), "ObsNone")]
     if o == "gc":
         ob = op["obs"]
+        if ob["kind"] == "gc-noobs":     # a collection inside a longer-lived process: its record listing is not observable
+            return [("OGC", "ObsNone")]
         if ob["kind"] != "gc":
             return []
         return [("OGC", "ObsGC %s" % recs_term(ob["recs"]))]
